@@ -53,7 +53,10 @@ class Source:
         """comments stripped, every whitespace run collapsed to one blank"""
         if rel not in self.cache:
             s = strip_comments(self.raw(rel))
-            self.cache[rel] = re.sub(r"\s+", " ", s)
+            s = re.sub(r"\s+", " ", s)
+            # a method chain broken over several lines: `x() .leftCols(..) .rightCols(..)` -> no blank before the dot
+            s = re.sub(r" \.(?=[A-Za-z_])", ".", s)
+            self.cache[rel] = s
         return self.cache[rel]
 
     def find(self, rel, pattern, what, start=0, flags=0):
@@ -763,10 +766,9 @@ def gen_sites(src, out):
             env_s["solver.eigenvalues().size()"] = "n"
             note = ""
             # optional local: const IndexType x = std::min<IndexType>(a, b);
-            for lm in re.finditer(r"const IndexType (\w+) = std::min<IndexType>\((.+?), (.+?)\);", small):
-                a_ = E(lm.group(2).replace("solver.eigenvalues().size()", "EIGSIZE"), dict(env, EIGSIZE="n"), what=prefix)
-                b_ = E(lm.group(3).replace("solver.eigenvalues().size()", "EIGSIZE"), dict(env, EIGSIZE="n"), what=prefix)
-                env_s[lm.group(1)] = "(min %s %s)" % (a_, b_)
+            for lm in re.finditer(r"const IndexType (\w+) = ([^;]+);", small):
+                v_ = E(lm.group(2).replace("solver.eigenvalues().size()", "EIGSIZE"), dict(env_s, EIGSIZE="n"), what=prefix)
+                env_s[lm.group(1)] = "(int)" + v_
                 note = " with `%s`" % lm.group(0)
             out.defn(prefix + "_segment_start", ["d", "skip"], E(mm.group(1), env, what=prefix), "smallest: `eigenvalues().segment(%s, %s)` — start" % (mm.group(1), mm.group(2)))
             out.defn(prefix + "_segment_len", ["d", "skip", "n"],
